@@ -41,7 +41,7 @@ GenNextLean ==
           Reply(a, t, out, {}, FALSE) /\ h' = Append(h, [ev |-> "Reply", alg |-> a, t |-> t, out |-> out, new |-> {}, old |-> FALSE])
 GenSpecLean == GenInit /\ [][GenNextLean]_gvars
 View == vars
-ProgJson == [kind |-> prog.kind, ins |-> prog.ins, vals |-> prog.vals]
+ProgJson == [kind |-> prog.kind, ins |-> prog.ins, vals |-> prog.vals, fb |-> prog.fb]
 Emit == PrintT(<<"SCHED", ToJson([prog |-> ProgJson, h |-> h'])>>)
 (* simulation: print every prefix; the driver keeps the maximal ones *)
 (* sampled export of a large instance: every transition is printed with probability 1/SampleRate *)
